@@ -2,7 +2,8 @@
     Only pinned statements, each closed by [exact] of a lemma proved in
     Lex/PlaceholderLaws.v or Store/CursorLaws.v. *)
 From Coq Require Import ZArith List.
-From VibeSQL Require Import Lex.F64Display Lex.Placeholder Lex.PlaceholderLaws Store.Cursor Store.CursorLaws.
+From VibeSQL Require Import Lex.F64Display Lex.F64DisplayLaws Lex.Placeholder Lex.PlaceholderLaws Lex.FloatTextLaws
+  Lex.PlaceholderFixed Lex.PlaceholderFixedLaws Store.Cursor Store.CursorLaws.
 Import ListNotations.
 Open Scope Z_scope.
 
@@ -43,6 +44,25 @@ Theorem C30_bind_parameters_count : forall (sql : text) (ps : list pyval) (t : t
 Proof. exact bind_parameters_count. Qed.
 Print Assumptions C30_bind_parameters_count.
 
+(** a printed value contributes '?' to the bound text only through a bound string *)
+Theorem C30_print_value_count_qm : forall v : bval, bval_in_range v ->
+  count_qm (print_value v) = match v with BVarchar s | BCharacter s => count_qm s | _ => O end.
+Proof. exact print_value_count_qm. Qed.
+Print Assumptions C30_print_value_count_qm.
+
+(** f64::to_string (Dragon4 shortest digits): for EVERY finite binary64 the digit generation terminates
+    within its fuel with decimal digits, and the text is a plain literal (digits, at most one '.', an
+    optional leading '-'): no quote, no second '-' *)
+Theorem C30_float_digits : forall (b m mi pl e : Z) (incl : bool), 0 <= b < two64 ->
+  f64_decode b = DFinite m mi pl e incl ->
+  exists (ds : list Z) (k : Z), dragon_shortest m mi pl e incl = Some (ds, k) /\ Forall digit_ok ds /\ ds <> [].
+Proof. exact fmt_digits_ok. Qed.
+Print Assumptions C30_float_digits.
+
+Theorem C30_float_text_plain : forall b : Z, 0 <= b < two64 -> f64_finite b = true -> plain_ok (fmt_f64 b) = true.
+Proof. exact fmt_f64_plain. Qed.
+Print Assumptions C30_float_text_plain.
+
 (** quoting lemma: a string printed with doubled quotes is read back as one literal with that content *)
 Theorem C30_quote_rescans : forall s : text, read_literal (quote s) = Some (RStr s).
 Proof. exact read_literal_quote. Qed.
@@ -68,6 +88,22 @@ Theorem C30_structure_preserved_iff : forall (sql : text) (ls : list slit), plai
   (safe sql ls = true <-> tscan SCode (splice SCode sql ls) = splice_t (tscan SCode sql) ls).
 Proof. exact structure_preserved_iff. Qed.
 Print Assumptions C30_structure_preserved_iff.
+
+(** the repair: with every literal between spaces the structure is preserved for EVERY template and
+    EVERY list of binder literals, and the repaired binder writes the specification's literals *)
+Theorem C30_structure_preserved_padded : forall (sql : text) (ls : list slit), plain_lits_ok ls ->
+  tscan SCode (splice_pad SCode sql ls) = splice_t_pad (tscan SCode sql) ls.
+Proof. exact structure_preserved_padded. Qed.
+Print Assumptions C30_structure_preserved_padded.
+
+Theorem C30_bind_fixed_spec : forall (sql : text) (ps : list pyval),
+  match bind_spec sql ps, bind_parameters_v true true sql ps with
+  | Some t, Some t' => exists ls, slits_of_py ps = Some ls /\ t = splice SCode sql ls /\ t' = splice_pad SCode sql ls
+  | None, None => True
+  | _, _ => False
+  end.
+Proof. exact bind_fixed_spec. Qed.
+Print Assumptions C30_bind_fixed_spec.
 
 Theorem C30_structure_refuted_dash : exists (sql : text) (vals : list bval),
   count_protected_qm SCode sql = O /\ count_qm sql = length vals /\
